@@ -22,14 +22,19 @@ ID = 'C03'
 HARNESS_BIN = None
 RUN_MODULE = 'Run.C03'
 REPO_BINS = ['sccache']
-THEOREMS = ['C03_hit_after_store', 'C03_hit_after_store_size_guard', 'C03_key_ignores_unhashed',
-            'C03_restart_preserves', 'C03_restart_drops_only_temp']
+THEOREMS = ['C03_hit_after_store', 'C03_hit_after_store_within_capacity', 'C03_key_ignores_unhashed', 'C03_key_ignores_output', 'C03_key_ignores_env',
+            'C03_reopen_keeps_everything', 'C03_restart_preserves']
 ASSUMPTIONS = [
     'the hash is an arbitrary function key_of of the fingerprint (record of the hashed request components); '
     '"unrelated request" = a request whose cache path differs (for a collision-free hash: whose fingerprint differs)',
     'the compilers are an oracle: what the compile step writes, whether it succeeds, how large the packed entry is; '
     'that equal sources give equal preprocessor output is not modelled (the e2e leg observes it)',
-    'nobody but sccache touches the cache directory; I/O errors other than "file missing" are not modelled',
+    'nobody but sccache touches the cache directory and entry files are intact (corruption: C08/C09); I/O errors other '
+    'than "file missing" and the 60 s lookup timeout are not modelled',
+    'the repeated request\'s preprocessor / dep-info step succeeds (or is skipped by a preprocessor-cache hit): explicit '
+    'hypothesis of C03_hit_after_store, it is the compiler\'s behaviour on unchanged files',
+    'C03_restart_preserves / C03_reopen_keeps_everything: guard "entry files fit the capacity and none is named like a '
+    'temp file" (holds in every generated history: checked through the entry-file count / byte total after every event)',
     'the preprocessor cache is modelled as a map that is never evicted (its directory is nested in the main cache '
     'root in the real code; the small-capacity histories therefore run with preprocessor-cache mode off)',
 ]
@@ -42,6 +47,10 @@ TRUSTED = [
 HUGE = 10 * 1024 * 1024 * 1024          # default SCCACHE_CACHE_SIZE
 C_ALLOW = ['SCCACHE_C_CUSTOM_CACHE_BUSTER', 'MACOSX_DEPLOYMENT_TARGET', 'IPHONEOS_DEPLOYMENT_TARGET',
            'TVOS_DEPLOYMENT_TARGET', 'WATCHOS_DEPLOYMENT_TARGET', 'SDKROOT', 'CCC_OVERRIDE_OPTIONS']
+UNRELATED_VARS = ['FOO', 'BUILD_ID', 'LANGUAGE', 'MY_CARGO_X']
+HASHED_VARS = {'c': ['SCCACHE_C_CUSTOM_CACHE_BUSTER', 'SDKROOT'], 'rustc': ['CARGO_PKG_VERSION', 'CARGO_PKG_NAME']}
+PP_ALLOW = ['SCCACHE_C_CUSTOM_CACHE_BUSTER', 'CPATH', 'C_INCLUDE_PATH', 'CPLUS_INCLUDE_PATH', 'OBJC_INCLUDE_PATH',
+            'OBJCPLUS_INCLUDE_PATH']          # preprocessor_cache.rs CACHED_ENV_VARS (used for the abstract pp key only)
 NUNITS = 3
 
 
@@ -89,34 +98,47 @@ def gen_plan(rng, tool, pp, cap, nreq, idle_timeout=0):
                     'externs': rng.shuffle(['d1', 'd2'])[:rng.range(0, 2)],
                     'lpaths': rng.shuffle(['deps', 'lp2'])[:rng.range(0, 2)],
                     'emit': rng.choice(['dep-info,link', 'link']),
-                    'out': fresh_out(), 'env': {}, 'bad': bad()}
+                    'out': fresh_out(), 'env': [], 'bad': bad()}
         return {'op': 'compile', 'unit': unit, 'opt': rng.choice(['-O0', '-O1', '-O2']),
                 'defs': rng.choice([[], ['-DK=1'], ['-DK=2', '-DJ']]),
                 'extra': rng.choice([[], ['-Wall'], ['-g'], ['-fPIC', '-Wall'], ['-ftest-coverage']]),
                 'md': rng.chance(1, 6),
-                'out': fresh_out(), 'env': {}, 'bad': bad()}
+                'out': fresh_out(), 'env': [], 'bad': bad()}
 
     def vary(base):
         c = json.loads(json.dumps(base))
         if c['bad']:
             c['out'] = fresh_out()          # a failing compile never targets an existing file
+            if rng.chance(2, 3):
+                c['bad'] = ''               # ... the user fixes it
             return c
         kinds = rng.weighted([(['same'], 3), (['out'], 4), (['env'], 3), (['out', 'env'], 3), (['order'], 3 if tool == 'rustc' else 0),
                               (['out', 'env', 'order'], 2 if tool == 'rustc' else 0),
-                              (['henv'], 1), (['flag'], 1)])
+                              (['henv'], 1), (['henv2'], 2), (['envorder'], 3 if len(c['env']) > 1 else 0),
+                              (['out', 'envorder'], 2 if len(c['env']) > 1 else 0), (['flag'], 1)])
+
+        def set_env(k, v):
+            c['env'] = [e for e in c['env'] if e[0] != k]
+            c['env'].insert(rng.below(len(c['env']) + 1), [k, v])
         if 'out' in kinds:
             c['out'] = fresh_out()
         if 'env' in kinds:
-            c['env'] = dict(c['env'])
-            c['env'][rng.choice(['FOO', 'BUILD_ID', 'LANGUAGE', 'MY_CARGO_X'])] = 'v%d' % rng.below(1000)
+            set_env(rng.choice(UNRELATED_VARS), 'v%d' % rng.below(1000))
         if 'order' in kinds:
             c['cfgs'] = rng.shuffle(c['cfgs'])
             c['externs'] = rng.shuffle(c['externs'])
             c['lpaths'] = rng.shuffle(c['lpaths'])
+        hv = HASHED_VARS['rustc' if tool == 'rustc' else 'c']
         if 'henv' in kinds:
-            c['env'] = dict(c['env'])
-            name = 'CARGO_PKG_VERSION' if tool == 'rustc' else 'SCCACHE_C_CUSTOM_CACHE_BUSTER'
-            c['env'][name] = 'b%d' % rng.below(3)
+            set_env(hv[0], 'b%d' % rng.below(3))
+        if 'henv2' in kinds:
+            # two hashed variables at once (their order in the environment must not matter); the second one is not
+            # part of the preprocessor-cache key (finding S16 of C04), so it is only used with that mode off
+            set_env(hv[0], 'b%d' % rng.below(2))
+            if tool == 'rustc' or not pp:
+                set_env(hv[1], 'x%d' % rng.below(2))
+        if 'envorder' in kinds:
+            c['env'] = c['env'][::-1] if rng.chance(1, 2) else rng.shuffle(c['env'])
         if 'flag' in kinds:
             if tool == 'rustc':
                 c['opt'] = '2' if c['opt'] != '2' else '1'
@@ -168,7 +190,7 @@ def gen_plans(rng, tier):
             cap = r.choice([1100, 1700, 2300, 3500]) if small else HUGE
             nreq = r.range(10, 14)
         # a few histories let the server exit by itself while idle (it is started again by the next client)
-        idle_timeout = 1 if (i % 12) in (4, 8, 9) else 0
+        idle_timeout = 2 if (i % 12) in (4, 8, 9) else 0
         plans.append(gen_plan(r, tool, pp, cap, nreq, idle_timeout))
     return plans
 
@@ -205,6 +227,10 @@ UNIT_SRC_C = ('#include "u%(u)d.h"\n#include "common.h"\n#ifdef BAD_PRE\n#includ
 UNIT_HDR_C = '#define U%(u)d %(v)d\n'
 UNIT_SRC_RS = ('#[cfg(fa)] pub fn fa() -> u32 { 1 }\n#[cfg(fb)] pub fn fb() -> u32 { 2 }\n#[cfg(bad_pre)] compile_error!("bad_pre");\n'
                '#[cfg(bad_cc)] pub fn bad() -> u32 { "x" }\npub fn f%(u)d(x: u32) -> u32 { x + %(v)d }\n')
+
+
+class Inconclusive(Exception):
+    pass
 
 
 class Runner:
@@ -261,11 +287,47 @@ class Runner:
 
     def sc(self, args, extra_env=None, timeout=120):
         e = dict(self.env)
-        if extra_env:
-            e.update(extra_env)
+        for k, v in (extra_env or []):      # appended in the given order: the order of the client's environment
+            e[k] = v
         p = subprocess.run([self.sccache] + args, env=e, cwd=self.ws, stdout=subprocess.PIPE, stderr=subprocess.PIPE,
                            timeout=timeout)
         return p.returncode, p.stdout, p.stderr
+
+    def find_server(self):
+        needle = ('SCCACHE_SERVER_PORT=%d' % self.port).encode()
+        for d in os.listdir('/proc'):
+            if not d.isdigit():
+                continue
+            try:
+                st = open('/proc/%s/stat' % d).read()
+                if st.rsplit(')', 1)[1].split()[0] == 'Z':
+                    continue
+                env = open('/proc/%s/environ' % d, 'rb').read().split(b'\0')
+                if needle in env and b'SCCACHE_START_SERVER=1' in env:
+                    return int(d)
+            except (OSError, IndexError):
+                pass
+        return None
+
+    def server_alive(self):
+        pid = getattr(self, 'server_pid', None)
+        if pid is not None:
+            try:
+                st = open('/proc/%d/stat' % pid).read()
+                if st.rsplit(')', 1)[1].split()[0] != 'Z':
+                    return True
+            except (OSError, IndexError):
+                pass
+        self.server_pid = self.find_server()
+        return self.server_pid is not None
+
+    def sync_server(self, events, obs):
+        """Histories with an idle timeout: if the server has shut itself down, that is a restart of the cache."""
+        if not self.server_alive():
+            self.sc(['--start-server'])
+            self.server_pid = self.find_server()
+            events.append(['restart'])
+            obs.append({'op': 'restart', 'entries': self.entries(), 'by': 'idle-timeout'})
 
     def stats(self):
         rc, out, err = self.sc(['--show-stats', '--stats-format=json'])
@@ -339,11 +401,11 @@ class Runner:
     def file_digest(self, rel):
         return h64(open(os.path.join(self.ws, rel), 'rb').read())
 
-    def abstract(self, c, tag, size, oracle):
+    def abstract(self, c, tag, oracle):
         """The request as the model sees it.  This classification (what is hashed, what is not) is the documented
         behaviour the property refers to; a divergence of the real code shows up as a disagreement / violation."""
         u = c['unit']
-        env = sorted(c['env'].items())
+        env = [(k, v) for k, v in c['env']]
         if self.tool == 'rustc':
             args = [['h', b'--crate-name'], ['h', b'l%d' % u], ['h', b'--crate-type'], ['h', b'rlib'],
                     ['h', b'--emit'], ['h', c['emit'].encode()], ['h', b'-C'], ['h', b'opt-level=' + c['opt'].encode()]]
@@ -356,7 +418,7 @@ class Runner:
             args += [['h', b'l%d.rs' % u], ['out', c['out'].encode()]]
             inputs = [self.file_digest('l%d.rs' % u)]
             return ['req', tag, 'rust', 7, args, [[k.encode(), v.encode()] for k, v in env], [], self.ws.encode(),
-                    inputs, [[r.encode(), p.encode(), 0] for r, p in self.outputs(c)], [], oracle + [size]]
+                    inputs, [[r.encode(), p.encode(), 0] for r, p in self.outputs(c)], [], oracle]
         defs = self.defs(c)
         args = [['h', c['opt'].encode()]] + [['u', d.encode()] for d in defs] + [['h', x.encode()] for x in c['extra']]
         if c.get('md'):
@@ -364,28 +426,31 @@ class Runner:
         args += [['u', b'-c'], ['u', b'u%d.c' % u], ['out', c['out'].encode()]]
         srcs = [open(os.path.join(self.ws, f), 'rb').read() for f in ('u%d.c' % u, 'u%d.h' % u, 'common.h')]
         # stands for the digest of the preprocessor output: a function of the texts read and the -D options
-        inputs = [h64(b'pp', *(srcs + [d.encode() for d in defs]))]
+        # (with preprocessor-cache mode in effect the preprocessor runs without -P: the line markers are part of its output;
+        #  -MD is "too hard" for that mode, so such a request is preprocessed with -P even when the mode is on)
+        markers = b'markers' if (self.plan['pp'] and not c.get('md')) else b'-P'
+        inputs = [h64(b'pp', markers, *(srcs + [d.encode() for d in defs]))]
         ppkey = []
         if self.plan['pp'] and not c.get('md'):          # -MD is "too hard" for preprocessor-cache mode
-            henv = [(k, v) for k, v in env if k in C_ALLOW]
+            henv = sorted((k, v) for k, v in env if k in PP_ALLOW)
             ppkey = [h64(b'ppkey', c['opt'], json.dumps(defs), json.dumps(c['extra']), json.dumps(henv),
                          'u%d.c' % u, srcs[0]).to_bytes(8, 'big')]
         comp = h64(open(self.cc, 'rb').read())
         return ['req', tag, 'c', comp, args, [[k.encode(), v.encode()] for k, v in env], [], self.ws.encode(),
-                inputs, [[r.encode(), p.encode(), 0] for r, p in self.outputs(c)], ppkey, oracle + [size]]
+                inputs, [[r.encode(), p.encode(), 0] for r, p in self.outputs(c)], ppkey, oracle]
 
     def identity(self, c):
         """The property's own notion of "the identical request" (same compiler, arguments, hashed environment,
         working directory, unchanged files), independent of the Coq model."""
         u = c['unit']
         if self.tool == 'rustc':
-            henv = sorted((k, v) for k, v in c['env'].items()
+            henv = sorted((k, v) for k, v in c['env']
                           if k.startswith('CARGO_') and k != 'CARGO_MAKEFLAGS' and not k.startswith('CARGO_REGISTRIES_'))
             return ('rust', u, c['opt'], c['emit'], tuple(sorted(c['cfgs'] + self.badcfg(c))),
                     tuple(sorted((x, self.file_digest('deps/lib%s.rlib' % x)) for x in c['externs'])),
                     tuple(henv), self.ws, self.file_digest('l%d.rs' % u))
-        henv = sorted((k, v) for k, v in c['env'].items() if k in C_ALLOW)
-        return ('c', u, c['opt'], tuple(self.defs(c)), tuple(c['extra']), tuple(henv),
+        henv = sorted((k, v) for k, v in c['env'] if k in C_ALLOW)
+        return ('c', u, c['opt'], tuple(self.defs(c)), tuple(c['extra']), bool(c.get('md')), tuple(henv),
                 tuple(self.file_digest(f) for f in ('u%d.c' % u, 'u%d.h' % u, 'common.h')))
 
     def classify_log(self, lines):
@@ -450,16 +515,15 @@ class Runner:
                     if rc != 0:
                         kill_servers(self.port)
                     self.sc(['--start-server'])
+                    self.server_pid = None
                     events.append(['restart'])
                     obs.append({'op': 'restart', 'entries': self.entries()})
                     continue
                 if op == 'idle_exit':
-                    # longer than SCCACHE_IDLE_TIMEOUT: the server shuts itself down; to the cache this is a restart
-                    # (if the machine is slow and it has not exited yet, reopening is unobservable: no timing assertion)
-                    time.sleep(2.6)
-                    self.sc(['--start-server'])
-                    events.append(['restart'])
-                    obs.append({'op': 'restart', 'entries': self.entries()})
+                    # longer than SCCACHE_IDLE_TIMEOUT: the server shuts itself down; to the cache that is a restart.
+                    # Whether it really exited is observed (pid), never assumed: no timing assertion.
+                    time.sleep(self.plan['idle_timeout'] + 1.3)
+                    self.sync_server(events, obs)
                     continue
                 if op == 'idle':
                     time.sleep(0.15)
@@ -468,6 +532,8 @@ class Runner:
                     continue
                 # ---- compile request
                 tag += 1
+                if self.plan.get('idle_timeout'):
+                    self.sync_server(events, obs)
                 if self.tool == 'rustc':
                     os.makedirs(os.path.join(self.ws, st['out']), exist_ok=True)
                 ident = self.identity(st)
@@ -524,12 +590,17 @@ class Runner:
                             viol.append('step %d (request %d, identical to stored request %d whose entry %s is still in the cache%s): %s'
                                         % (si, tag, t0, entry_file, ', after %d restart(s)' % sum(1 for x in self.plan['steps'][:si] if x['op'] == 'restart'),
                                            '; '.join(what)))
+                if self.plan.get('idle_timeout') and not self.server_alive():
+                    raise Inconclusive('the server exited while request %d was being observed' % tag)
                 if d['cache_writes'] == 1 and len(new) == 1:
                     stored[ident] = (tag, new[0])
                 o['saved_ref'] = None
                 obs.append(o)
                 bad = st.get('bad', '')
-                events.append(self.abstract(st, tag, size, [0 if bad == 'pre' else 1, 0 if bad == 'cc' else 1, 1]))
+                # what the compile step leaves behind: everything, or (rustc failing in type check) only the dep-info
+                written = [r for r, _ in outs if bad != 'cc' or (self.tool == 'rustc' and r.endswith('.d'))]
+                events.append(self.abstract(st, tag, [0 if bad == 'pre' else 1, 0 if bad == 'cc' else 1, 1, size,
+                                                      [r.encode() for r in written]]))
         finally:
             rc, _, _ = self.sc(['--stop-server'])
             kill_servers(self.port)
@@ -617,6 +688,10 @@ def run_plans(plans, keep=False):
                 r = Runner(root, plan, sccache, deps)
                 obs, events, saved, viol = r.run()
                 err = None
+            except Inconclusive as e:
+                obs, events, saved, viol, err = [], [], {}, [], None
+                return dict(plan=plan, obs=[], events=[], saved={}, viol=[], err=None, wall=time.time() - t0,
+                            inconclusive=str(e))
             except Exception:
                 import traceback
                 obs, events, saved, viol, err = [], [], {}, [], traceback.format_exc()
@@ -650,6 +725,36 @@ def corpus_plans():
     return out
 
 
+def read_env_list(path):
+    import re
+    src = open(path).read()
+    m = re.search(r'static CACHED_ENV_VARS: Lazy<HashSet<&\'static OsStr>> = Lazy::new\(\|\| \{\s*\[(.*?)\]', src, re.S)
+    if not m:
+        raise RuntimeError('CACHED_ENV_VARS not recognised in ' + path)
+    body = re.sub(r'//[^\n]*', '', m.group(1))
+    names = re.findall(r'"([A-Za-z0-9_]+)"', body)
+    if not names or re.sub(r'"[A-Za-z0-9_]+"|[\s,]', '', body):
+        raise RuntimeError('CACHED_ENV_VARS has an unexpected shape in ' + path)
+    return names
+
+
+def translate(rep):
+    """Re-read the allow-lists the generator and the model rely on; fail loudly when they moved."""
+    main = read_env_list(os.path.join(pipeline.REPO, 'src', 'compiler', 'c.rs'))
+    ppl = read_env_list(os.path.join(pipeline.REPO, 'src', 'compiler', 'preprocessor_cache.rs'))
+    bad = [v for v in UNRELATED_VARS if v in main or v in ppl] + [v for v in HASHED_VARS['c'] if v not in main]
+    if HASHED_VARS['c'][0] not in ppl:
+        bad.append(HASHED_VARS['c'][0] + ' (preprocessor key)')
+    rep.oblige('translate:CACHED_ENV_VARS', not bad and set(C_ALLOW) <= set(main) and set(PP_ALLOW) <= set(ppl),
+               'c.rs: %s; preprocessor_cache.rs: %s; generator/model expect %s / %s; misclassified: %s'
+               % (main, ppl, C_ALLOW, PP_ALLOW, bad))
+    rs = open(os.path.join(pipeline.REPO, 'src', 'compiler', 'rust.rs')).read()
+    ok = ('var.starts_with("CARGO_")' in rs and 'var == "CARGO_MAKEFLAGS" || var.starts_with("CARGO_REGISTRIES_")' in rs
+          and 'sortables.sort();' in rs and 'externs.sort();' in rs and 'env_vars.sort();' in rs)
+    rep.oblige('translate:rust-key-shape', ok, 'CARGO_ prefix filter, --cfg sort, externs.sort, env sort '
+               + ('found' if ok else 'NOT all found in rust.rs'))
+
+
 def prebuild(rep):
     ok, out = pipeline.build_repo_bins(REPO_BINS)
     rep.oblige('build:sccache', ok, out[-2000:] if not ok else 'cargo build --offline --bin sccache, --cfg sccache_verif')
@@ -669,6 +774,10 @@ def extra(rep, known):
     for r in results:
         plan = r['plan']
         pj = json.dumps(plan, sort_keys=True)
+        if r.get('inconclusive'):
+            rep.count('history.inconclusive_timing')
+            rep.notes.append('history skipped: ' + r['inconclusive'])
+            continue
         fam = '%s.pp=%s.%s' % (plan['tool'], 'on' if plan['pp'] else 'off', 'smallcap' if plan['cap'] != HUGE else 'hugecap')
         rep.count('history.' + fam)
         hits_after_restart = 0
@@ -677,6 +786,8 @@ def extra(rep, known):
             rep.count('event.' + ob['op'])
             if ob['op'] == 'restart':
                 restarts += 1
+                if ob.get('by'):
+                    rep.count('event.restart_by_idle_timeout')
             if ob['op'] == 'compile':
                 rep.evaluations += 1
                 info['requests'] += 1
